@@ -383,3 +383,30 @@ package gorm
 //@   min-sites 1
 //@   entry filterApplied == 0
 //@   assert filter-before-build: filterApplied == 1 [C08]
+
+//@ # ---------- C03/C05: CreateInBatches covers the slice exactly once, in order, on the block's connection ----------
+//@ ghost covered
+//@ event call reflect.(Value).Slice
+//@   in gorm.(*DB).CreateInBatches$1
+//@   requires batch-starts-where-previous-ended: arg1 == covered [C03]
+//@   requires batch-is-non-empty-and-in-range: 0 <= arg1 && arg1 < arg2 && arg2 <= reflectLen [C03]
+//@   requires batch-no-larger-than-requested: arg2 - arg1 <= batchSize [C03]
+//@   requires batch-is-full-unless-last: arg2 == reflectLen || arg2 - arg1 == batchSize [C03]
+//@   do covered = arg2
+
+//@ func (*DB).CreateInBatches$1
+//@   tags C03 C05
+//@   requires batchSize > 0 && covered == 0 && reflectLen >= 0
+//@   loop 1 invariant progress: i >= 0 && covered == min(i, reflectLen)
+//@   ensures every-row-in-some-batch: result == nil ==> covered == reflectLen
+
+//@ site batch-runs-on-the-block-connection
+//@   match call gorm.(*processor).Execute
+//@   in gorm.(*DB).CreateInBatches$1
+//@   min-sites 1
+//@   assert same-connection-as-block: arg1.Statement.ConnPool == tx.Statement.ConnPool [C05,C03]
+//@ site batches-share-one-transaction
+//@   match call gorm.(*DB).Session
+//@   in gorm.(*DB).CreateInBatches
+//@   min-sites 1
+//@   assert single-batch-or-no-default-transaction: tx.Config.SkipDefaultTransaction || reflectLen <= batchSize [C05]
